@@ -30,13 +30,16 @@ type c07Cfg struct {
 	ExtraEdits bool   // a stray reconcile order: replica sets reconciled before the EDS after the failure
 	Hold       string // "", "frozen", "rolling-paused": the replacement of the canary pods is held back for three minutes after the failure
 	Unready    bool   // with Hold: the failed canary's pods stop being Ready while they wait
+	// SelectorToo: the update that starts the canary changes spec.selector together with the template (to a selector
+	// every node still matches); the rollback restores the template, the selector stays
+	SelectorToo bool
 }
 
 var c07Faults = []string{"none", "status-reject", "status-conflict", "status-lost", "crash-between", "spec-reject", "spec-conflict", "spec-lost", "crash-before-status"}
 var c07Routes = []string{"command", "restarts", "timeout", "command-mid-sync", "command-early"}
 
 func (c c07Cfg) String() string {
-	return fmt.Sprintf("nodes=%d replicas=%s affinity=%v failBy=%s paused=%v afterDuration=%v fault=%s rsFirst=%v hold=%q unready=%v", c.Nodes, c.Replicas, c.Affinity, c.FailBy, c.Paused, c.AfterDur, c.Fault, c.ExtraEdits, c.Hold, c.Unready)
+	return fmt.Sprintf("nodes=%d replicas=%s affinity=%v failBy=%s paused=%v afterDuration=%v fault=%s rsFirst=%v hold=%q unready=%v selectorChangedWithTheTemplate=%v", c.Nodes, c.Replicas, c.Affinity, c.FailBy, c.Paused, c.AfterDur, c.Fault, c.ExtraEdits, c.Hold, c.Unready, c.SelectorToo)
 }
 
 func c07Run(rec *evid.Rec, f fataler, cfg c07Cfg) { c07RunFor(rec, f, cfg, "C07") }
@@ -48,6 +51,9 @@ func c07RunFor(rec *evid.Rec, f fataler, cfg c07Cfg, prop string) {
 	monitors := mon.Of("rs-gc", "promotion-rule", "canary-confinement", "create-eligible", "no-panic", "status-function", "canary-latch")
 	if prop == "C05" {
 		monitors = mon.Of("promotion-rule", "canary-latch", "no-panic")
+	}
+	if prop == "C08" {
+		monitors = mon.Of("paused-frozen", "canary-latch", "no-panic")
 	}
 	w := &World{rec: rec, cfg: WorldCfg{Monitors: monitors, Property: prop}, H: mon.NewHistory(), RSSeen: map[string]bool{}, RolesSynced: map[string]bool{}, Facts: map[string]int{}, lastSyncAt: map[string]time.Time{}, Det: true}
 	w.OnViolation = func(vs []mon.V) { viol = append(viol, vs...) }
@@ -101,6 +107,12 @@ func c07RunFor(rec *evid.Rec, f fataler, cfg c07Cfg, prop string) {
 	activeBefore := w.C.EDS(k.Namespace, k.Name).Status.ActiveReplicaSet
 	activeTpl := w.C.ERS(k.Namespace, activeBefore).Spec.Template
 	w.editTemplate(k, 'B')
+	if cfg.SelectorToo {
+		w.C.Tracef("eds %s/%s selector := tier=a", k.Namespace, k.Name)
+		_ = w.C.EditEDS(k.Namespace, k.Name, func(x *edsv1.ExtendedDaemonSet) {
+			x.Spec.Selector = &metav1.LabelSelector{MatchLabels: map[string]string{"tier": "a"}}
+		})
+	}
 	early := cfg.FailBy == "command-early"
 	if early {
 		// route command-early: the user fails the canary as soon as the EDS controller has recorded it, before the
@@ -346,6 +358,15 @@ func c07RunFor(rec *evid.Rec, f fataler, cfg c07Cfg, prop string) {
 	if nt && rec.WantSample() {
 		rec.Sample(map[string]interface{}{"config": cfg, "fault_hit": fired, "canary_nodes": canaryNodes})
 	}
+	if prop == "C08" {
+		var keep []mon.V
+		for _, v := range viol {
+			if v.Monitor != "rollback" && v.Monitor != "failed-stays" {
+				keep = append(keep, v)
+			}
+		}
+		viol = keep
+	}
 	if prop == "C05" {
 		var keep []mon.V
 		for _, v := range viol {
@@ -389,7 +410,7 @@ func TestC05FailedStays(t *testing.T) {
 }
 
 func TestC07Rollback(t *testing.T) {
-	rec := evid.New("TestC07Rollback", "C07", "history: first deployment, template change, canary up on its nodes, optional pause, optional elapsed duration, optionally rollout-frozen / rolling-update-paused for three minutes from the failure on (canary pods optionally not Ready meanwhile), then the canary fails by {kubectl-eds canary fail, restart storm -> auto-fail, canaryTimeout, canary fail landing between the read and the status write of the canary replica set's own sync, canary fail before the replica-set controller has synced the new set at all}; the rollback reconcile meets a fault of the two-write window {none, status write rejected (generic error or Conflict), status applied/answer lost, stop between the writes, spec write rejected (generic error or Conflict), spec applied/answer lost, stop before the status write}; then fair rounds with advancing time; oracle: within 25 rounds spec.template = active template, status.canary nil, status.activeReplicaSet unchanged, every former canary node runs one Ready pod of the active template; the failed set exists for >= 2 minutes and is deleted only with an all-zero status (rs-gc monitor); non-trivial = a canary pod existed at failure time and (no fault requested or the fault hit the window); distinct by configuration")
+	rec := evid.New("TestC07Rollback", "C07", "history: first deployment, template change (one time in four together with a change of spec.selector that every node still matches), canary up on its nodes, optional pause, optional elapsed duration, optionally rollout-frozen / rolling-update-paused for three minutes from the failure on (canary pods optionally not Ready meanwhile), then the canary fails by {kubectl-eds canary fail, restart storm -> auto-fail, canaryTimeout, canary fail landing between the read and the status write of the canary replica set's own sync, canary fail before the replica-set controller has synced the new set at all}; the rollback reconcile meets a fault of the two-write window {none, status write rejected (generic error or Conflict), status applied/answer lost, stop between the writes, spec write rejected (generic error or Conflict), spec applied/answer lost, stop before the status write}; then fair rounds with advancing time; oracle: within 25 rounds spec.template = active template, status.canary nil, status.activeReplicaSet unchanged, every former canary node runs one Ready pod of the active template; the failed set exists for >= 2 minutes and is deleted only with an all-zero status (rs-gc monitor); non-trivial = a canary pod existed at failure time and (no fault requested or the fault hit the window); distinct by configuration")
 	t.Cleanup(func() {
 		if !t.Failed() {
 			rec.Done()
@@ -399,7 +420,8 @@ func TestC07Rollback(t *testing.T) {
 		cfg := c07Cfg{Nodes: rapid.IntRange(2, 5).Draw(rt, "nodes"), Replicas: rapid.SampledFrom([]string{"1", "2", "50%"}).Draw(rt, "replicas"), Affinity: rapid.Bool().Draw(rt, "affinity"),
 			FailBy: rapid.SampledFrom(c07Routes).Draw(rt, "failBy"), Paused: rapid.Bool().Draw(rt, "paused"), AfterDur: rapid.Bool().Draw(rt, "afterDuration"),
 			Fault: rapid.SampledFrom(c07Faults).Draw(rt, "fault"), ExtraEdits: rapid.Bool().Draw(rt, "rsFirst"),
-			Hold: rapid.SampledFrom([]string{"", "", "frozen", "rolling-paused"}).Draw(rt, "hold"), Unready: rapid.Bool().Draw(rt, "unready")}
+			Hold: rapid.SampledFrom([]string{"", "", "frozen", "rolling-paused"}).Draw(rt, "hold"), Unready: rapid.Bool().Draw(rt, "unready"),
+			SelectorToo: rapid.IntRange(0, 3).Draw(rt, "selectorChangedWithTheTemplate") == 0}
 		c07Run(rec, rt, cfg)
 	})
 }
@@ -422,6 +444,42 @@ func TestC07Window(t *testing.T) {
 								continue
 							}
 							c07Run(rec, ff, c07Cfg{Nodes: 3, Replicas: "1", FailBy: route, Paused: paused, AfterDur: after, Fault: fault, ExtraEdits: rsFirst, Hold: hold, Unready: hold != ""})
+						}
+					}
+				}
+			}
+		}
+	}
+	rec.Exhaustive(true)
+	if !failed {
+		rec.Done()
+	}
+}
+
+// TestC08FailedCanaryHeld: C08 after a canary failure. The rollout is frozen or the rolling update paused from the
+// failure on; the failed canary's pods are then outdated pods like any other: nobody deletes them while the hold lasts
+// (frozen: nobody creates either), whichever replica set is being synced - the active one, or the failed set that is
+// neither active nor canary any more. Complete product of failure route x pause x elapsed duration x reconcile order
+// x hold x readiness of the held pods.
+func TestC08FailedCanaryHeld(t *testing.T) {
+	rec := evid.New("TestC08FailedCanaryHeld", "C08", "complete product {5 failure routes} x {paused or not} x {canary duration elapsed or not} x {replica sets or EDS reconciled first} x {rollout frozen, rolling update paused - set at the failure and kept for three minutes} x {held canary pods Ready or not} x {no fault, spec write of the rollback rejected} on a 3-node cluster with one canary node; monitors paused-frozen (no update deletion while paused, no creation or deletion while frozen - by the active set, the canary, or a set that is neither) and canary-latch after every reconcile; non-trivial = a canary pod existed at failure time; distinct by configuration")
+	failed := false
+	ff := &firstFail{t: t, failed: &failed}
+	shard, shards := envInt("VERIF_SHARD", 0), envInt("VERIF_SHARDS", 1)
+	i := 0
+	for _, route := range c07Routes {
+		for _, fault := range []string{"none", "spec-reject"} {
+			for _, paused := range []bool{false, true} {
+				for _, after := range []bool{false, true} {
+					for _, rsFirst := range []bool{false, true} {
+						for _, hold := range []string{"frozen", "rolling-paused"} {
+							for _, unready := range []bool{false, true} {
+								i++
+								if i%shards != shard {
+									continue
+								}
+								c07RunFor(rec, ff, c07Cfg{Nodes: 3, Replicas: "1", FailBy: route, Paused: paused, AfterDur: after, Fault: fault, ExtraEdits: rsFirst, Hold: hold, Unready: unready}, "C08")
+							}
 						}
 					}
 				}
